@@ -862,4 +862,9 @@ def own_out_violations(an: Analysis):
     sc = store_closure(an)
     bad = {n for n in rc if n[0] == "S" and n != ("S", ())}
     bad |= {n for n in rc if n in sc and n[0] != "S"}
+    # objects retained by a memoising decorator are process-wide state as well: every caller gets the same object
+    memo = {n for (n, l) in an.heap if n[0] == "S" and len(n) > 1 and n[1] and n[1][0] == "<memo>"}
+    if memo:
+        mc = an.closure(memo)
+        bad |= {n for n in rc if n in mc and n[0] not in ("S", "IMM")}
     return sorted(bad, key=str)
